@@ -120,7 +120,7 @@ def gen (seed n : Nat) (thorough : Bool) : List Case := Id.run do
   let og := if thorough then opGrid else slice 3 seed opGrid
   let lg := if thorough then libGrid seed else slice 3 seed (libGrid seed)
   -- the three small grids run in full on every run
-  let mut out := (errGrid.reverse ++ callGrid.reverse ++ indexGrid.reverse ++ seqPairGrid.reverse ++ og.reverse ++ lg.reverse ++
+  let mut out := (escGrid.reverse ++ errGrid.reverse ++ callGrid.reverse ++ indexGrid.reverse ++ seqPairGrid.reverse ++ og.reverse ++ lg.reverse ++
     (corpus thorough).reverse)
   for i in [0:n] do
     let (c, _) := (genCase i).run (seedOf seed (1000000 + i))
